@@ -657,6 +657,23 @@ class Sym:
                             return mkphi(idx[2][0], ("const", tab[True]), ("const", tab[False]))
                     except TypeError:
                         pass
+            if base[0] == "global" and isinstance(e.value, ast.Name):
+                # a module-level table computed entry by entry from its key:  T = {k: f(k) for k in KEYS}  /  dict((k, f(k)) for (k, _) in ..)
+                # looked up with x is f(x) (for x among the keys; a missing key raises in both forms)
+                r = self.prog.resolve_name(self.fi.module, e.value.id)
+                node = r[1] if r and r[0] == "const" and (len(r) < 3 or r[2] is self.fi.module) else None
+                comp = None
+                if isinstance(node, ast.DictComp):
+                    comp = (node.key, node.value, node.generators)
+                elif isinstance(node, ast.Call) and call_name(node) == "dict" and len(node.args) == 1 and not node.keywords \
+                        and isinstance(node.args[0], (ast.GeneratorExp, ast.ListComp)) and isinstance(node.args[0].elt, ast.Tuple) and len(node.args[0].elt.elts) == 2:
+                    comp = (node.args[0].elt.elts[0], node.args[0].elt.elts[1], node.args[0].generators)
+                if comp is not None and isinstance(comp[0], ast.Name) and len(comp[2]) == 1 and not comp[2][0].ifs:
+                    bound_names = {x.id for x in ast.walk(comp[2][0].target) if isinstance(x, ast.Name)}
+                    used = {x.id for x in ast.walk(comp[1]) if isinstance(x, ast.Name)} & bound_names
+                    if comp[0].id in bound_names and used <= {comp[0].id}:
+                        modsym = Sym(self.prog, self.fi, None, inline=False)
+                        return modsym.expr(comp[1], {comp[0].id: idx}, depth)
             return ("sub", base, idx)
         if isinstance(e, ast.Slice):
             return ("slice", self.expr(e.lower, env, depth), self.expr(e.upper, env, depth), self.expr(e.step, env, depth))
